@@ -16,6 +16,7 @@ RULE = ("(1) prefix consistency: every generated program s1..sn is also run cut 
         "binding, and duplicate lets at top level and inside module bodies must fail. distinct = distinct program "
         "texts; non-trivial = >= 2 statements.")
 RULE += (" " + 'Also: every pairing of the two binding statements (let, constraint) on one name - adjacent, apart, used in between, in module bodies - must fail, the same names in different scopes must build; duplicate parameter names must fail.')
+RULE += (" " + 'Eight scoping templates in which the shadowed outer binding is read by the statement just before the function / callback / format is defined, or inside the same statement.')
 
 INDEX_MD = os.path.join(core.REPO, "docsite/site/content/reference/_index.md")
 
